@@ -25,7 +25,10 @@ DEMONAME="$(grep -oE 'func (Test[A-Za-z0-9_]+)' "$DEMO" | awk '{print $2}' | pas
 RACE=""; grep -q '"property": *"C16"' "$SD/meta.json" && RACE="-race"
 cp "$DEMO" "$WT/"
 without="$(cd "$WT" && go test -vet=off -count=1 $RACE -run "^($DEMONAME)\$" . 2>&1 | tail -1)"
-git -C "$WT" apply "$SD/patch.diff" || { echo "SEED $PROP: patch does not apply"; exit 2; }
+PATCH="$SD/patch.diff"
+# a later repair of /repo may have rewritten the very lines a seeded change touches: a hand-rebased equivalent is used then
+[ -f "$SD/patch-rebased.diff" ] && PATCH="$SD/patch-rebased.diff"
+git -C "$WT" apply "$PATCH" || { echo "SEED $PROP: patch does not apply"; exit 2; }
 (cd "$WT" && go build ./...) || { echo "SEED $PROP: does not build"; exit 2; }
 rm -f "$WT/$(basename "$DEMO")"
 WITH="$(suite)"
